@@ -22,8 +22,8 @@ RULE = ("cases = (molecule, ansatz kind, encoding, ordering) x seeded histories 
 ASSUMPTIONS = ["equivalence = same action on |0..0> and on one random state up to a global phase (vlib.refsim)",
                "the shadow is a fresh object of the same class built with the final parameters on the same molecule object"]
 ANCHORS = [
-    ("tangelo/toolboxes/ansatz_generator/uccsd.py", "155-205", "UCCSD Pauli word -> gate index table / rebuild on support change"),
-    ("tangelo/toolboxes/ansatz_generator/upccgsd.py", "132-197", "UpCCGSD per-layer index tables"),
+    ("tangelo/toolboxes/ansatz_generator/uccsd.py", "build_circuit,update_var_params", "UCCSD Pauli word -> gate index table / rebuild on support change"),
+    ("tangelo/toolboxes/ansatz_generator/upccgsd.py", "build_circuit,update_var_params", "UpCCGSD per-layer index tables"),
     ("tangelo/toolboxes/ansatz_generator/uccgd.py", "build_circuit,update_var_params", "UCCGD stored term order"),
     ("tangelo/toolboxes/ansatz_generator/hea.py", "update_var_params", "HEA positional update"),
     ("tangelo/toolboxes/ansatz_generator/rucc.py", "update_var_params", "RUCC positional update"),
